@@ -7,9 +7,30 @@ KANI_FILES = {
     "tensor": ["libm.rs"],
     "activation": ["activation.rs"],
     "objective": ["objective.rs"],
+    "network": ["layers.rs"],
+    "maxpool": ["maxpool.rs"],
+    "convolution": ["convolution.rs"],
+    "deconvolution": ["deconvolution.rs"],
+}
+
+# module -> native replay/search file(s) under contracts/native appended to that module's mirror (cfg verif_replay)
+NATIVE_FILES = {
+    "network": ["layers.rs"],
+    "maxpool": ["maxpool.rs"],
+    "convolution": ["convolution.rs"],
+    "deconvolution": ["deconvolution.rs"],
 }
 
 PLAN = {
+    "C01": dict(
+        title="Backpropagated gradients are the true derivatives of the objective",
+        level="proof",
+        verus=["C01_conv_backward.rs", "C01_deconv_backward.rs", "C07_activations.rs"],
+        kani=True,
+        undecided_clauses=[
+            "max-pool routing, dense backward, soft-max x cross-entropy, reverse layer walk (Network::backward / Feedback::backward), skip "
+            "connections: units under construction or out of reach (see DESIGN.md)"],
+    ),
     "C02": dict(
         title="Each layer's forward pass computes its defining operator",
         level="proof",
@@ -69,6 +90,18 @@ TRUSTED_BASE = [
 ]
 
 MANIFEST_TEXT = {
+    "C01": dict(
+        category="proof",
+        technique="Verus loop-invariant proofs that the backward nests compute the adjoint tap sums of the verified forward operators",
+        design_ref="DESIGN.md §5 C01",
+        text="Proof for all shapes and all (kernel, stride, padding, dilation): the gradient nests of Convolution::backward and "
+             "Deconvolution::backward leave in every kernel-gradient and input-gradient cell exactly the sum, over the forward pass's taps "
+             "that touch that cell, of delta times the other factor - the partial derivative of the forward tap sum (F3) - with gradient "
+             "shapes equal to parameter/input shapes; activation derivative closures equal the textbook derivative of the forward closure. "
+             "Failing obligations are replayed by an exact finite-difference search on the real layer (integer data).",
+        note="F1 uninterpreted floats; F3 (derivative of a multi-affine tap sum; chain rule) is mathematics, confirmed numerically by the "
+             "native exact finite-difference grid; the reverse layer walk and dense / max-pool / soft-max pieces are bounded or undecided.",
+    ),
     "C02": dict(
         category="proof",
         technique="Verus loop-invariant proofs of the convolution and transposed-convolution nests against recursive tap-sum specs",
